@@ -33,6 +33,8 @@ CORPUS = [
     b"syntax = \"proto2\";\n/* a\r\n\r\n b */\r\nmessage M {}\r\n",
     b"syntax = \"proto2\";\n/**/\nmessage M {}\n",
     b"syntax = \"proto2\";\nmessage M {\n  optional int32 x = 1;\n  // c\n  ;\n}\n",
+    # an editions enum with reserved identifiers: every statement has a location
+    b"edition = \"2023\";\nenum E { reserved A, B; E_ZERO = 0; reserved 5; }\nmessage M { reserved a, b; reserved 5; }\n",
     # the arrangements protoc's collector distinguishes
     b"syntax = \"proto2\";\nmessage M {\n  optional int32 a = 1; /* t */ /* d */ /* l */ optional int32 b = 2;\n"
     b"  optional int32 c = 3; /* multi\n line */ optional int32 d = 4;\n  optional int32 e = 5; /* amb */ optional int32 f = 6;\n"
@@ -85,12 +87,36 @@ def gcase_term(has_prev, raw, nxt, extra, texp, dexp, lex):
     return "(mkgcase %s %s %s %s %s %s %s %s)" % (COQ_CFG, coq_bool(has_prev), coq_N_list(raw), S.coq_nextk(nxt), coq_bool(extra), t, d, lx)
 
 
+def statements_without_location(src, locs):
+    """declaration-level statements (first token, last token = its ';') at whose ';' no location ends"""
+    ends = set()
+    for loc in locs:
+        s, e = src.span_tokens(loc["s"])
+        if e is not None:
+            ends.add(e)
+    out = []
+    start = 0
+    for k in range(len(src.toks)):
+        if src.decl[k]:
+            if src.ttext[k] == b";" and k > start and k not in ends:
+                out.append((start, k))
+            start = k + 1
+    return out
+
+
 def gap_expectations(src, locs):
     """per gap k (before token k): (texp, dexp) drawn from the standard-mode locations; None = nothing observable"""
     lead, trail, unmapped = S.locs_by_anchor(src, locs)
     hb = lambda x: None if x is None else bytes.fromhex(x)
     res = []
+    bare = statements_without_location(src, locs)
+    bare_first = {a for a, b in bare}
+    bare_last = {b for a, b in bare}
     for k in range(len(src.toks)):
+        if k in bare_first or (k - 1) in bare_last:
+            # reported on its own (statement-without-location); its comments have nowhere to go
+            res.append((None, None, []))
+            continue
         texp = dexp = None
         problems = []
         if src.nwc_gap(k):
@@ -210,6 +236,24 @@ def run(ctx):
         exps, unmapped = gap_expectations(src, o["locs"]["1"])
         for i in unmapped:
             ctx.corr_break("span-not-on-token-boundaries", {"source_hex": c["text"]}, {"loc": o["locs"]["1"][i]})
+        for a, b in statements_without_location(src, o["locs"]["1"]):
+            stmt = b" ".join(src.ttext[a:b + 1]).decode("utf8", "replace")
+            in_enum = False
+            depth = 0
+            for j in range(a - 1, -1, -1):        # the block the statement is in
+                if src.decl[j] and src.ttext[j] == b"}":
+                    depth += 1
+                elif src.decl[j] and src.ttext[j] == b"{":
+                    if depth == 0:
+                        m = j
+                        while m > 0 and not src.decl[m - 1]:
+                            m -= 1
+                        in_enum = src.ttext[m] == b"enum"
+                        break
+                    depth -= 1
+            key = "enum-reserved-identifiers-without-location" if (src.ttext[a] == b"reserved" and in_enum) else "statement-without-location"
+            ctx.violation(key, "protoc records a location (with comments) for every declaration; no location ends at the end of this statement",
+                          {"source_hex": c["text"], "source": text.decode("utf8", "replace"), "statement": stmt})
         for k, (texp, dexp, problems) in enumerate(exps):
             g = src.gaps[k]
             raw = gap_bytes(src, k)
